@@ -208,9 +208,9 @@ def check(case, res, ctx):
 
 CHOICES = (["list_name", "name", "label"], [["l", "c1", "C1"], ["l", "c2", "C2"]])
 POOLS = {
-    "lower": (["ga", "hb", "kc", "md"], "q"),
-    "mixed": (["Visit", "Vital", "Plot", "Farm"], "Q"),
-    "prefix": (["r", "r2", "rr", "g"], "r_"),
+    "lower": (["ga", "hb", "kc", "md", "ne"], "q"),
+    "mixed": (["Visit", "Vital", "Plot", "Farm", "Field"], "Q"),
+    "prefix": (["r", "r2", "rr", "g", "g2"], "r_"),
 }
 
 
